@@ -38,6 +38,7 @@ type c10Op struct {
 	Op string `json:"op"`
 	K  ev.B   `json:"k,omitempty"`
 	V  ev.B   `json:"v,omitempty"`
+	P  int    `json:"p,omitempty"` // put/del/get: when >0 the key is the ((P-1) mod n)-th of the n keys mentioned so far (K if none)
 	M  int    `json:"m,omitempty"` // bcommit: bit0 = write-set path instead of CommitTo; M/2%3: 0 keep, 1 Reset, 2 fresh overlay+cache
 }
 
@@ -46,7 +47,7 @@ type c10Case struct {
 	// otherwise with the verif export shims that only differ in the advisory initial capacity.
 	Real bool    `json:"real,omitempty"`
 	Pre  []c10KV `json:"pre,omitempty"` // persisted contents (full keys, non-empty values)
-	Ops []c10Op `json:"ops"`
+	Ops  []c10Op `json:"ops"`
 }
 
 var c10Alphabet = []byte{'a', 'b', 0xff}
@@ -107,6 +108,12 @@ func genC10Op(t *rapid.T) c10Op {
 	case "bcommit":
 		op.M = rapid.IntRange(0, 5).Draw(t, "m")
 	}
+	switch op.Op {
+	case "tput", "tdel", "tget", "bput", "bdel", "bget", "sget":
+		if rapid.Bool().Draw(t, "pick") {
+			op.P = rapid.IntRange(1, 64).Draw(t, "p")
+		}
+	}
 	return op
 }
 
@@ -115,9 +122,9 @@ func genC10(t *rapid.T) c10Case {
 		return c10KV{K: genC10Full().Draw(t, "k"), V: genC10Val().Draw(t, "v")}
 	})
 	return c10Case{
-		Real: rapid.IntRange(0, 255).Draw(t, "real") == 0,
-		Pre:  rapid.SliceOfN(kv, 0, 20).Draw(t, "pre"),
-		Ops: rapid.SliceOfN(rapid.Custom(genC10Op), 1, ev.Scale(40, 100)).Draw(t, "ops"),
+		Real: (rapid.Uint64().Draw(t, "real")*0x9E3779B97F4A7C15)>>56 == 0x5a, // ~1/256 (rapid biases small ints, hence the hash)
+		Pre:  rapid.OneOf(rapid.SliceOfN(kv, 0, 20), rapid.SliceOfN(kv, 6, 20)).Draw(t, "pre"),
+		Ops:  rapid.OneOf(rapid.SliceOfN(rapid.Custom(genC10Op), 1, ev.Scale(40, 100)), rapid.SliceOfN(rapid.Custom(genC10Op), 12, ev.Scale(40, 100))).Draw(t, "ops"),
 	}
 }
 
@@ -342,8 +349,31 @@ func runC10Body(ctx0 *ev.Ctx, c c10Case) {
 		siter(where, nil)
 	}
 
+	// pick resolves an index into the keys mentioned so far (so that writes hit existing keys)
+	pick := func(p int, txOnly bool) []byte {
+		var cand []string
+		for k := range universe {
+			if !txOnly || k[0] == stPrefix {
+				cand = append(cand, k)
+			}
+		}
+		if len(cand) == 0 {
+			return nil
+		}
+		sort.Strings(cand)
+		return []byte(cand[(p-1)%len(cand)])
+	}
 	for i, op := range c.Ops {
 		where := fmt.Sprintf("op %d (%s):", i, op.Op)
+		if op.P > 0 {
+			txOnly := op.Op[0] == 't'
+			if k := pick(op.P, txOnly); k != nil {
+				if txOnly {
+					k = k[1:]
+				}
+				op.K = k
+			}
+		}
 		full := string(op.K)
 		switch op.Op {
 		case "tput":
